@@ -8,16 +8,18 @@
 // Shape of every harness
 //   * The zone is a mock (stub M1) implementing the public `Zone` trait.  Its
 //     STRUCTURE (which nodes `iter_by_node` yields, which RRsets they own,
-//     which names the NS / MX RDATA mention, what `ns()` returns) is concrete
-//     per harness: stack/static views of `Name` and `RdataSet` (the technique
-//     of the query family; `c21_inputs_wellformed` ties the views to the
-//     public constructors).
+//     which names the NS / MX RDATA mention, what `ns()` / `soa()` return) is
+//     concrete per harness: static views of `Name` and `RdataSet` (the
+//     technique of the query family; `c21_inputs_wellformed` ties the views to
+//     the public constructors).  The zone is the root zone: the shortest
+//     names keep the unwind bound at 4.
 //   * What the zone ANSWERS to `lookup_addrs(name, options)` is a table
 //     indexed by (pool name, search_below_cuts): a function of its arguments,
-//     so the implementation and the reference see the same zone.  The table
-//     entries are symbolic per harness (kind of answer, presence of A / AAAA,
-//     which delegation a referral names), as are the class (IN / CH / HS),
-//     the glue policy and what `soa()` returns.
+//     so the implementation and the reference see the same zone.  Table
+//     entries are symbolic where CBMC can take it (kind of answer, presence of
+//     A / AAAA), as are the class (IN / CH / HS) and the glue policy.
+//   * `Facts::hints` (see there) only helps CBMC's constant propagation; the
+//     mock asserts that every hint equals the actual lookup arguments.
 //   * Oracle: `ref_validate` computes the expected issue set from the same
 //     facts (it reads the RDATA views with its own walker, never through
 //     quandary's `RdataSet::iter` / `Name` parser); the Vec returned by
@@ -27,8 +29,21 @@
 //
 // The mock may be "inconsistent" as a zone (e.g. `ns()` and the apex node of
 // `iter_by_node` are independent facts, a name may be answered Found although
-// no node for it is iterated): validate is then checked on a superset of the
-// situations a real store produces, which is sound for "reports exactly".
+// no node for it is iterated, the root zone may disown a name): validate is
+// then checked on a superset of the situations a real store produces, which
+// is sound for "reports exactly".
+//
+// What CBMC could take (measured on a machine with load average 30-50):
+//   * zones WITHOUT nodes (SOA / apex NS checks): minutes;
+//   * zones with a node but no address lookup from it (CNAME checks): ~20 min;
+//   * a node whose NS / MX RDATA is looked up: the `Vec<IteratedRrset>` that
+//     validate collects per node lives on the heap, which makes the RRset
+//     type, the RDATA pointers and lengths symbolic to CBMC; every arm of
+//     scan_node's match and every loop is explored to the unwind bound, each
+//     with `HashSet::contains` -> `Name == Name` (about 50 loop unwindings a
+//     piece).  c21_mx_one (one node, one MX, one symbolic answer, unwind 4)
+//     needed 46 min of symbolic execution and then ran out of memory at
+//     14.2 GB; those harnesses are kept below, disabled (`@disabled-harness`).
 
 use super::*;
 use crate::db::zone::{Cname, IteratedRrset, IteratorByNode, LookupAllResult, LookupResult, Referral, SingleRrset};
@@ -1229,4 +1244,102 @@ fn check_set(raw: &'static [u8]) {
     }
     assert!(rdataset_view(raw).iter().count() == w.n, "[C21] harness: RdataSet view iterates its RDATA");
     core::mem::forget(owned);
+}
+
+// --------------------------------------------------------------------------
+// scan_node called directly
+// --------------------------------------------------------------------------
+//
+// Through `validate`, a node's RRsets reach scan_node in a heap `Vec`
+// (`rrsets.collect()`), which CBMC cannot see through (see the top of the
+// file).  The harnesses below call the private `scan_node` themselves and
+// hand it the RRsets in a `Vec` laid over a STACK array (capacity 0, so that
+// dropping it frees nothing; the Vec is only iterated and dropped by
+// scan_node, its elements borrow static data).  What is then NOT exercised
+// is validate's three-line loop `for (owner, rrsets) in zone.iter_by_node()
+// { scan_node(zone, owner, rrsets.collect(), &mut issues)?; }`, which
+// c21_cname_nodes covers through the real validate.
+
+/// Runs scan_node on the first node of `f` (at most 2 RRsets) and compares the
+/// issues with the reference for a zone whose apex contributes nothing
+/// (`f.soa` has one RDATA, `f.ns` names only x., which the table disowns).
+fn run_scan(f: &Facts, cap: usize) -> IssueSet {
+    let exp = ref_validate(f);
+    let zone = MockZone {
+        f: *f,
+        calls: core::cell::Cell::new(0),
+    };
+    let node = &f.nodes[0];
+    let n = node.sets.len();
+    let s0 = &node.sets[0];
+    let s1 = &node.sets[if n > 1 { 1 } else { 0 }];
+    let mut arr: [IteratedRrset; 2] = [
+        IteratedRrset {
+            rr_type: Type::from(s0.rtype),
+            ttl: Ttl::from(60),
+            rdatas: Cow::Borrowed(rdataset_view(s0.raw)),
+        },
+        IteratedRrset {
+            rr_type: Type::from(s1.rtype),
+            ttl: Ttl::from(60),
+            rdatas: Cow::Borrowed(rdataset_view(s1.raw)),
+        },
+    ];
+    let rrsets: Vec<IteratedRrset> = unsafe { Vec::from_raw_parts(arr.as_mut_ptr(), n, 0) };
+    let mut issues: HashSet<ValidationIssue> = HashSet::new();
+    let r = scan_node(&zone, pool(node.owner).name(), rrsets, &mut issues);
+    assert!(r.is_ok(), "[C21] scan_node fails on a node whose RDATA is all valid");
+    let mut seen = IssueSet::empty();
+    assert!(issues.len() <= cap, "[C21] more issues than the scenario can have");
+    let mut it = issues.iter();
+    let mut i = 0;
+    while i < cap {
+        match it.next() {
+            Some(issue) => note(issue, &exp, &mut seen),
+            None => break,
+        }
+        i += 1;
+    }
+    assert!(seen.same(&exp), "[C21] an issue found by the reference checker is not reported");
+    core::mem::forget(issues);
+    core::mem::forget(arr);
+    exp
+}
+
+/// Facts of a zone whose apex contributes no issue and no address lookup
+/// that matters: one SOA, ns() = {x.}, x. disowned (WrongZone).
+fn quiet_apex<'f>(
+    class: Class,
+    class_code: u16,
+    policy: GluePolicy,
+    wide: bool,
+    nodes: &'f [NodeV],
+    hints: &'f [(usize, bool)],
+) -> Facts<'f> {
+    let mut f = base(class, class_code, policy, wide, nodes, hints);
+    f.ns = Some(&RS_NS_OUT);
+    f.table[N_OUT][0] = Ans::WrongZone;
+    f
+}
+
+static H_NSE_GLUE: [(usize, bool); 2] = [(N_NSE, false), (N_NSE, true)];
+static H_NSD_GLUE: [(usize, bool); 2] = [(N_NSD, false), (N_NSD, true)];
+
+// @harness props=C21 tier=quick mem=6 t=3600 cbmc="--max-field-sensitivity-array-size 256"
+//   fn="validation::scan_node,check_delegation_ns_address,check_glue,class_has_addrs,addrs_found"
+//   bound="scan_node on node d. {NS ns.e.} where ns.e. lies in the SIBLING delegation e. (plain lookup answers Referral(e.)); the glue lookup (search_below_cuts) symbolic: 5 kinds, A/AAAA presence; class and glue policy symbolic: narrow needs no glue, wide does; unwind 4"
+//   sym="class, policy, 1 table entry" stubs="S1,M1"
+#[kani::proof]
+#[kani::unwind(4)]
+fn c21_scan_delegation_sibling_ns() {
+    let (class, class_code) = any_class();
+    let (policy, wide) = any_policy();
+    let mut f = quiet_apex(class, class_code, policy, wide, &NODES_D_NSE, &H_NSE_GLUE);
+    f.table[N_NSE][0] = Ans::Referral { child: N_E };
+    f.table[N_NSE][1] = any_ans(N_E);
+    let e = run_scan(&f, 1);
+    let t1 = f.table[N_NSE][1];
+    kani::cover!(e.is_empty() && !wide && class_code == 1 && matches!(t1, Ans::NxDomain), "narrow: sibling-zone name server needs no glue");
+    kani::cover!(e.has(K_GLUE, N_NSE) && wide && matches!(t1, Ans::NxDomain), "wide: sibling-zone name server needs glue");
+    kani::cover!(e.is_empty() && wide && class_code == 1 && matches!(t1, Ans::Found { a: true, .. }), "wide: sibling glue present");
 }
